@@ -83,6 +83,10 @@ Definition next (s : st) : option tok * st :=
   | None => (None, s)
   end.
 
+(* InputRef::skip, n times: like next without looking at the token; stays put at the end of input *)
+Fixpoint skip_loop (n : nat) (s : st) : st :=
+  match n with 0 => s | S k => skip_loop k (snd (next s)) end.
+
 Definition alt_ef (s : st) (exp : list N) (found : option tok) (sp : span) : st :=
   set_alt s (add_alt K (alt s) (cur s) exp found sp).
 Definition alt_err (s : st) (p : nat) (e : err) : st :=
@@ -183,7 +187,8 @@ Fixpoint group_loop (m : mode) (gs : list G) (ctx : env) (acc : list val) (s : s
 
 (* ---------- iterator protocol ---------- *)
 Inductive itst := SCount (n : nat) | SEnum (i : nat) (s : itst) | SFlag (b : bool)
-                | SCfg (n : nat) (lo : nat) (hi : option nat).
+                | SCfg (n : nat) (lo : nat) (hi : option nat)
+                | SFail (k : nat).        (* try_configure: the closure returned Err(custom k) in make_iter *)
 Inductive ires := INone | ISome (v : option val) | IErr | IPanic (site : nat) | IOOF.
 
 Fixpoint mk_iter (i : IT) (ctx : env) : itst :=
@@ -194,7 +199,9 @@ Fixpoint mk_iter (i : IT) (ctx : env) : itst :=
   | IMap _ j => mk_iter j ctx
   | IMapWith _ j => mk_iter j ctx
   | IOrNot _ => SFlag false
-  | IRepCfg _ lo hi ck => SCfg 0 (cfg_lo ck lo (val_count (cval ctx))) (cfg_hi ck hi (val_count (cval ctx)))
+  | IRepCfg _ lo hi ck =>
+      if cfg_fails ck (val_count (cval ctx)) then SFail lo
+      else SCfg 0 (cfg_lo ck lo (val_count (cval ctx))) (cfg_hi ck hi (val_count (cval ctx)))
   end.
 
 Fixpoint noncons_ok (i : IT) : bool :=
@@ -265,6 +272,15 @@ Fixpoint it_next (m : mode) (i : IT) (ctx : env) (its : itst) (s : st) : ires * 
       (* next_cfg: cfg.at_most.unwrap_or(self.at_most), cfg.at_least.unwrap_or(self.at_least);
          the configuring closure always sets both *)
       match rep_next m a clo chi ctx c s with (r, c', s') => (r, SCfg c' clo chi, s') end
+  | IRepCfg _ _ _ _, SFail k =>
+      (* TryIterConfigure::make_iter: the closure's error is recorded at the cursor and the iteration fails before any item
+         (modelled at the first `next`: nothing happens between make_iter and it) *)
+      (* = a try_map that rejects an empty match with that error *)
+      match run m (TryMap PFalse FId k Empty) ctx s with
+      | (Err, s') => (IErr, its, s')
+      | (Panic x, s') => (IPanic x, its, s')
+      | (_, s') => (IOOF, its, s')
+      end
   | IEnum j, SEnum k js =>
       match it_next m j ctx js s with
       | (ISome v, js', s') => (ISome (mapv m (fun x => VPair (VNat k) x) v), SEnum (S k) js', s')
@@ -897,6 +913,7 @@ Fixpoint go (n : nat) (m : mode) (g : G) (ctx : env) (s : st) {struct n} : outco
       end
   | Pratt atom ops => pratt_go run n' m atom ops ctx 0 s
   | GroupArr gs => group_loop run m gs ctx [] s
+  | Skip k => (Ok (bindv m VUnit), skip_loop k s)
   | ExtWrap a =>
       (* extension.rs Ext::go: M::choose(parse, check) = InputRef::parse / InputRef::check of the wrapped parser in the
          current mode; on failure the whole pending error is TAKEN and re-recorded at the position before the Ext *)
